@@ -323,6 +323,7 @@ func ruleC12Determinism(c *Ctx) {
 		for _, nx := range mapRangeNexts(f) {
 			nLoops++
 			sinks := []string{}
+			keyForms, computedInto, entryDependent := map[string]map[string]bool{}, map[string]bool{}, map[string]bool{}
 			for _, b := range f.Blocks {
 				if !inNaturalLoop(nx.Block(), b) {
 					continue
@@ -333,13 +334,44 @@ func ruleC12Determinism(c *Ctx) {
 						if bi, ok := in.Common().Value.(*ssa.Builtin); ok && bi.Name() == "append" && len(in.Common().Args) == 2 {
 							// every append under a map range is order-sensitive, except the idiom of registering an
 							// identical clean-up closure per entry (a closure none of whose bindings derives from the entry)
-							if !isIterationIndependentClosure(in.Common().Args[1], nx) {
+							if !isIterationIndependentClosure(in.Common().Args[1], nx) && !sortedAfterwards(in) {
 								sinks = append(sinks, "append")
 							}
 						}
 						nm := calleeName(in.Common())
 						if strings.Contains(nm, "Write") || strings.Contains(nm, "Fprint") {
 							sinks = append(sinks, nm)
+						}
+					case *ssa.MapUpdate:
+						// entries of the ranged map stored into one map under keys of two different forms, one of them
+						// computed from the entry's key (`out[k] = v` next to `out[k+"_"+inner] = w`): two entries can
+						// arrive at the same key, and which of them is written last is the iteration order
+						tb := NewTB()
+						kt := tb.Of(in.Key)
+						computed := (kt.Op == "bin" || kt.Op == "call" && kt.Name != "builtin:string") && kt.Contains(func(x *Term) bool {
+							ex, ok := x.V.(*ssa.Extract)
+							return ok && ex.Tuple == ssa.Value(nx)
+						})
+						mt := tb.Of(in.Map).String()
+						if keyForms[mt] == nil {
+							keyForms[mt] = map[string]bool{}
+						}
+						keyForms[mt][kt.String()] = true
+						if computed {
+							computedInto[mt] = true
+						}
+						// which form an entry takes must depend on the entry itself: a loop-invariant switch between the
+						// forms (all keys prefixed, or none) cannot make two entries collide
+						for _, fc := range factsAt(b) {
+							if ib, ok := fc.cond.(ssa.Instruction); ok && !inNaturalLoop(nx.Block(), ib.Block()) {
+								continue
+							}
+							if tb.Of(fc.cond).Contains(func(x *Term) bool {
+								ex, ok := x.V.(*ssa.Extract)
+								return ok && ex.Tuple == ssa.Value(nx)
+							}) {
+								entryDependent[mt] = true
+							}
 						}
 					case *ssa.Return:
 						// a successful return from inside the loop picks "the first" entry
@@ -358,6 +390,11 @@ func ruleC12Determinism(c *Ctx) {
 							sinks = append(sinks, "break")
 						}
 					}
+				}
+			}
+			for mt := range computedInto {
+				if len(keyForms[mt]) >= 2 && entryDependent[mt] {
+					sinks = append(sinks, "map updates under colliding key forms")
 				}
 			}
 			if len(sinks) == 0 {
@@ -1028,4 +1065,98 @@ func ruleC12JoinOrderWindow(c *Ctx) {
 		nx := mapRangeNexts(f)
 		c.Check(len(nx) == 0, "c12.join-order-window", "(*Join)."+name, c.P.Pos(f.Pos()), "emits rows in an order that does not depend on map iteration", "emits rows while ranging over a Go map: with LIMIT/OFFSET and no total ORDER BY the window keeps a different multiset of rows on re-evaluation (`SELECT x.a, y.c FROM t x JOIN u y ON x.a = y.a LIMIT 1` returned 6 different rows in 50 runs)")
 	}
+}
+
+func init() {
+	register("C12", ruleC12ArbitraryEntry)
+	register("C01", ruleC12ArbitraryEntry)
+}
+
+// ruleC12ArbitraryEntry: "the only entry of a map" is taken only from maps known to have at most one.
+func ruleC12ArbitraryEntry(c *Ctx) {
+	c.Doc("c12.arbitrary-entry", "a range over a Go map that leaves the loop in its first round (`for _, v := range row { …; break }`) takes an arbitrary entry: allowed only where the map is known to hold at most one (a dominating test of its length) — `x IN (SELECT p, q FROM …)` compared x with a randomly chosen column of each row, so the same query on the same document returned different rows from one evaluation to the next")
+	n := 0
+	for _, f := range c.P.ModFuncs {
+		if len(f.Blocks) == 0 || len(f.TypeArgs()) > 0 {
+			continue
+		}
+		k := 0
+		for _, nx := range mapRangeNexts(f) {
+			hdr := nx.Block()
+			// does any block of the loop jump back to the header?
+			loops := false
+			for _, pred := range hdr.Preds {
+				if pred != hdr && inNaturalLoop(hdr, pred) && hdr.Dominates(pred) {
+					loops = true
+				}
+			}
+			if loops {
+				continue
+			}
+			// a loop without a back edge that still has a body: one round at most
+			rg, ok := nx.Iter.(*ssa.Range)
+			if !ok {
+				continue
+			}
+			n++
+			k++
+			key := fmt.Sprintf("%s/first-of-map#%d", c.P.funcKey(f), k)
+			c.Fn(c.P.funcKey(f))
+			guarded := false
+			for _, fc := range relFacts(factsAt(hdr)) {
+				if !isLenOf(fc.x, rg.X) {
+					continue
+				}
+				if kk, isK := constIntOf(fc.y); isK {
+					if fc.r == relLE && kk <= 1 || fc.r == relLT && kk <= 2 || fc.r == relEQ && kk <= 1 {
+						guarded = true
+					}
+				}
+			}
+			c.Check(guarded, "c12.arbitrary-entry", key, c.P.Pos(nx.Pos()), "the map is known to hold at most one entry", "the loop takes the first entry Go's map iteration happens to yield of "+NewTB().Of(rg.X).String()+", a map that may hold several: which entry that is changes from run to run")
+		}
+	}
+	if n == 0 {
+		c.PassTrivial("c12.arbitrary-entry", "module", "-", "no one-round range over a map in the module")
+	}
+}
+
+// sortedAfterwards: the slice this append grows is handed to a sort before anything else reads it (the keys of a map
+// collected in order to be walked in sorted order).
+func sortedAfterwards(app *ssa.Call) bool {
+	seen := map[ssa.Value]bool{}
+	var walk func(v ssa.Value, d int) bool
+	walk = func(v ssa.Value, d int) bool {
+		if d > 6 || seen[v] || v.Referrers() == nil {
+			return false
+		}
+		seen[v] = true
+		for _, r := range *v.Referrers() {
+			switch x := r.(type) {
+			case *ssa.Phi:
+				if walk(x, d+1) {
+					return true
+				}
+			case *ssa.Call:
+				switch calleeName(x.Common()) {
+				case "sort.Strings", "sort.Ints", "sort.Float64s", "sort.Slice", "sort.SliceStable", "sort.Sort", "sort.Stable":
+					return true
+				}
+				if sc := x.Common().StaticCallee(); sc != nil && sc.Pkg != nil && sc.Pkg.Pkg.Path() == "slices" && strings.HasPrefix(sc.Name(), "Sort") {
+					return true
+				}
+				if bi, ok := x.Common().Value.(*ssa.Builtin); ok && bi.Name() == "append" && len(x.Common().Args) > 0 && x.Common().Args[0] == v {
+					if walk(x, d+1) {
+						return true
+					}
+				}
+			case *ssa.MakeInterface:
+				if walk(x, d+1) {
+					return true
+				}
+			}
+		}
+		return false
+	}
+	return walk(app, 0)
 }
